@@ -9,6 +9,7 @@
 """
 import json
 import os
+import re
 
 import vlib
 import lra_tools as T
@@ -28,11 +29,27 @@ def run(ctx):
     report = lambda c, sig, rep, no_input=False: c09.report(c, sig, rep, no_input)
     # ---- semantic probe ------------------------------------------------------------------------------------------
     n_probe = 1000 if not ctx.thorough else 15000
-    probes = [T.gen_semantic_probe(rng) for _ in range(n_probe)]
+    probes = [T.gen_semantic_probe_pivoted(rng) if rng.random() < 0.45 else T.gen_semantic_probe(rng) for _ in range(n_probe)]
     r = vlib.run([exe], stdin="".join(p[0].text() for p in probes), timeout=600 if ctx.thorough else 120)
     got, cur, dead, nonroot = [], None, [], 0
+    basic_now, req_basic, req_basic_scaled = set(), 0, 0
     for line in (r.out or "").split("\n"):
+        if line.startswith("S "):
+            try:
+                basic_now = set(int(x) for x in re.findall(r"\[(\d+) ", line.split(" | ")[3]))
+            except (IndexError, ValueError):
+                basic_now = set()
+        elif line.startswith("E newrel") or line.startswith("E neweq"):
+            # relations whose left-hand side mentions a variable that is basic at the time of the request (substitution path)
+            left = line.split("|")[-2].split()
+            terms = [t.split(":") for t in left if ":" in t and not t.startswith("c=")]
+            hit = [(int(v), c) for v, c in terms if v.isdigit() and int(v) in basic_now]
+            if hit:
+                req_basic += 1
+                if any(c not in ("1/1",) for _, c in hit):
+                    req_basic_scaled += 1
         if line.startswith("E reset"):
+            basic_now = set()
             cur = []
             got.append(cur)
             dead.append(False)
@@ -64,6 +81,8 @@ def run(ctx):
                     report(ctx, "lra:literal-meaning", {"kind": "literal-does-not-mean-its-relation", "script": sc.text(),
                                                         "expected_feasible": e, "implementation": a,
                                                         "explanation": "literal (or its negation) assumed together with x_i = q_i; feasibility must equal the relation evaluated at q"})
+    st["requests_over_a_basic_variable"] = req_basic
+    st["requests_over_a_basic_variable_with_coefficient_not_1"] = req_basic_scaled
     cov["semantic_probe"] = st
     # ---- differential --------------------------------------------------------------------------------------------
     n = 800 if not ctx.thorough else 10000
@@ -123,6 +142,8 @@ def run(ctx):
     cov.pop("_reported", None)
     cov["evaluations"] = st["probes"] + stats["events"]
     cov["distinct_nontrivial"] = st["probes"] + stats["shared"] + stats["true_false"] + stats["slack_reused"]
+    cov["rule_round2"] = ("pivoted probes (45%): root assertions on sums violated by the initial values force pivots, then the target c*x (c != 1, sometimes "
+                          "c*x + d*y) is requested against a constant at / next to the probe point, then further root bounds, then both polarities are probed")
     cov["rule"] = ("semantic probes: 1-4 variables, 0-3 root assertions, target relation (all five kinds) with its boundary placed at / next to a rational "
                    "probe point, requested before or after the root tightening, both polarities; differential: 6-16 requests per script over a pool of "
                    "shared / shifted / cancelling expressions and slack references, root assertions in between, queries")
